@@ -52,6 +52,9 @@ type c07Case struct {
 	Offender []c07Item   `json:"offender"`
 	Results  []c04Result `json:"results,omitempty"` // recorder: scripted results in call order ("handler-contract" class)
 	CloseAt  int         `json:"close_at"`          // the offender closes its side after this many items (-1: stays)
+	// WriteFault: "" | "block" (the offender stops reading: the server's reply write blocks while the witness works,
+	// then the offender resets) | "fail" (the offender is gone: reply writes fail)
+	WriteFault string `json:"write_fault,omitempty"`
 }
 
 func (c c07Case) describe() string {
@@ -59,7 +62,7 @@ func (c c07Case) describe() string {
 	for _, it := range c.Offender {
 		parts = append(parts, it.String())
 	}
-	return fmt.Sprintf("handler %s; offender: %s; close_at %d", c.Handler, strings.Join(parts, " | "), c.CloseAt)
+	return fmt.Sprintf("handler %s; offender: %s; close_at %d write_fault %q", c.Handler, strings.Join(parts, " | "), c.CloseAt, c.WriteFault)
 }
 
 var c07Setup = [][]string{{"SET", "str", "abc"}, {"SET", "empty", ""}, {"SET", "num", "9223372036854775807"}, {"SET", "neg", "-9223372036854775808"}, {"RPUSH", "list", "a", "b", "c"},
@@ -137,8 +140,46 @@ func evalC07(c c07Case) *Failure {
 		}
 	}
 	offenderAlive := true
+	if c.WriteFault == "fail" {
+		m.Conns[0].WriteFailAfter = 0
+	}
 	for i, it := range c.Offender {
 		when := fmt.Sprintf("after offender item %d (%s)", i, it)
+		if offenderAlive && c.WriteFault == "block" && it.Req != nil {
+			// the offender has stopped reading: the server blocks in the reply write; others must still be served
+			when = fmt.Sprintf("while the reply to offender item %d (%s) cannot be written", i, it)
+			m.Conns[0].BlockWrites = true
+			m.Conns[0].Feed(it.bytes())
+			if m.Conns[0].WaitWriteBlocked(serveTimeout()) {
+				m.Timeout = 10 * time.Second
+				f := witness(i, when)
+				m.Timeout = serveTimeout()
+				if f != nil {
+					if strings.HasSuffix(f.Key, "|stall") || strings.HasPrefix(f.Key, "harness|stall") {
+						return failf("c07|witness-blocked-by-stalled-writer", "%s: %s: the witness got no reply within 10s - a client that does not read its replies stalls the others", what, when)
+					}
+					return f
+				}
+			} else if !m.Conns[0].Closed() {
+				// no reply was being written (incomplete request after a raw fragment): carry on normally
+				m.Conns[0].UnblockWrites()
+				if f := witness(i, when); f != nil {
+					return f
+				}
+				continue
+			}
+			// the offender resets: the blocked write fails
+			m.Conns[0].Close()
+			m.Conns[0].UnblockWrites()
+			offenderAlive = false
+			if f := checkPanic(when); f != nil {
+				return f
+			}
+			if f := witness(i, when+" and the offender has reset"); f != nil {
+				return f
+			}
+			continue
+		}
 		if offenderAlive {
 			if i == c.CloseAt {
 				m.Conns[0].CloseRead(false)
@@ -316,6 +357,14 @@ func genC07Case(rt *rapid.T, avoid func(string) bool) (c07Case, map[string]bool)
 	if rapid.IntRange(0, 3).Draw(rt, "close") == 0 {
 		c.CloseAt = rapid.IntRange(0, n-1).Draw(rt, "closeat")
 		labels["disconnect"] = true
+	}
+	switch rapid.IntRange(0, 7).Draw(rt, "wfault") {
+	case 0:
+		c.WriteFault = "block"
+		labels["peer-stops-reading"] = true
+	case 1:
+		c.WriteFault = "fail"
+		labels["reply-write-fails"] = true
 	}
 	if c.Handler == "recorder" {
 		k := rapid.IntRange(0, 8).Draw(rt, "nres")
